@@ -763,6 +763,11 @@ func runC14(r *Rand, tier string, o *Out) {
 		}
 		o.Count("scenario:subscriber-leaves-during-an-announcement")
 	}
+	// one client follows two properties and gives one up
+	if out := o.Do("P", "pr.twosubs", true); out != "level=1 gain=2 after-cancel level=3 level=4" {
+		o.Fail("change events: a client that follows two properties and gives one up", "pr.twosubs => "+out)
+	}
+	o.Count("scenario:two-properties-one-given-up")
 	// one user id for two properties of an object on one connection
 	if out := o.Do("P", "pr.sameuid", true); out != "first=accepted second=refused event=42 unregister=answered" {
 		o.Fail("change events: registrations of one connection under one user id", "pr.sameuid => "+out)
